@@ -6,7 +6,7 @@ use std::str::FromStr;
 
 const TOKS: [&str; 8] = ["a", "d41d8cd98f00b204e9800998ecf8427e", "pool/main/f/foo_1.0-1.dsc", "~+.é日", "0", "-", "a,b;c:d", "UPPER_lower.123%7E[x]"];
 const INTS: [&str; 4] = ["0", "1", "2147483647", "9223372036854775808"];
-const URLS: [&str; 3] = ["https://salsa.debian.org/jelmer/deb822-lossless.git", "lp:foo", "git://x.example/~u/r?a=b"];
+const URLS: [&str; 5] = ["https://salsa.debian.org/jelmer/deb822-lossless.git", "lp:foo", "git://x.example/~u/r?a=b", "https://[2001:db8::1]:8443/git/foo.git", "ssh://git@host.example:2222/~user/-b/repo.git"];
 const BR: [&str; 2] = ["main", "debian/sid"];
 const SP: [&str; 2] = ["sub", "a/b-c"];
 
@@ -33,6 +33,27 @@ fn keyword<T: FromStr + std::fmt::Debug>(o: &mut Outcome, ty: &str, kw: &str, ac
         Ok(None) => { if accept { o.v("C18", "keyword", ty, "mismatch", feats, kw, "documented keyword rejected".into()); } }
         Err(m) => o.v("C18", "keyword", ty, "panic", feats, kw, m),
     }
+}
+
+/// the text form of a "value" case of MCCodecs (for the entry-point stage: the texts and their blank mutations are
+/// fed to every parser); None for keyword cases and types without blanks of their own
+pub fn value_text(case: &Value) -> Option<String> {
+    use debian_control::fields::*;
+    let ty = case["ty"].as_str().unwrap_or("");
+    if case["k"] != "value" { return None; }
+    let f: Vec<usize> = case["f"].as_array().map(|a| a.iter().map(|x| x.as_u64().unwrap_or(0) as usize).collect()).unwrap_or_default();
+    let size = |i: usize| INTS[i - 1].parse::<usize>().unwrap();
+    let prio = |i: usize| [Priority::Required, Priority::Important, Priority::Standard, Priority::Optional, Priority::Extra][i - 1].clone();
+    Some(match ty {
+        "Sha256Checksum" => Sha256Checksum { sha256: TOKS[f[0] - 1].into(), size: size(f[1]), filename: TOKS[f[2] - 1].into() }.to_string(),
+        "Md5Checksum" => Md5Checksum { md5sum: TOKS[f[0] - 1].into(), size: size(f[1]), filename: TOKS[f[2] - 1].into() }.to_string(),
+        "PackageListEntry" => { let mut e = PackageListEntry::new(TOKS[f[0] - 1], ["deb", "udeb"][f[1] - 1], ["libs", "non-free/x11"][f[2] - 1], prio(f[3])); if f[4] == 1 { e.extra.insert("arch".into(), "any".into()); } e.to_string() }
+        "changes::File" => debian_control::lossless::changes::File { md5sum: TOKS[f[0]].into(), size: size(f[1]), section: ["libs", "non-free/x11"][f[2] - 1].into(), priority: prio(f[3]), filename: TOKS[f[4] - 1].into() }.to_string(),
+        "ParsedVcs" => debian_control::vcs::ParsedVcs { repo_url: URLS[f[0] - 1].into(), branch: if f[1] == 0 { None } else { Some(BR[f[1] - 1].into()) }, subpath: if f[2] == 0 { None } else { Some(SP[f[2] - 1].into()) } }.to_string(),
+        "Dep3OriginField" => { let cat = ["", "backport, ", "vendor, ", "upstream, ", "other, "][f[0]]; let t = ["abc123", "https://x.example/c/1", "1.2.3", "é"][f[2] - 1]; format!("{}{}{}", cat, if f[1] == 1 { "commit:" } else { "" }, t) }
+        "License" => { let n = ["GPL-3+", "MIT"][f[1] - 1]; let t = ["one line", "two\nlines", " .\n x"][f[2] - 1]; match f[0] { 1 => n.to_string(), 2 => format!("\n{}", t), _ => format!("{}\n{}", n, t) } }
+        _ => return None,
+    })
 }
 
 pub fn run(case: &Value, _seed: u64) -> Outcome {
